@@ -247,7 +247,7 @@ type rvm struct {
 	data     [][]byte
 	alt      [][]byte
 	child    bool
-	gasExact bool // false once gas can no longer be predicted from the documented model (a predicate inside a predicate aborted with its unpaid result possibly held)
+	gasExact bool // false once gas can no longer be predicted from the documented model (a predicate stopped in a way abortStateDefined does not cover, or one inside a predicate aborted with its unpaid result possibly held)
 	steps    int
 	predEnd  class // how the last CHECKPREDICATE predicate run by this machine stopped ("" if none)
 	// When an instruction aborts on its final memory charge, the documented model does not say
@@ -1212,11 +1212,7 @@ func (m *rvm) checkPredicate(ownMem *bool) class {
 	m.childExp += ch.childExp
 	m.steps += ch.steps
 	m.predEnd = ccl
-	// What a predicate holds when it aborts follows from the model used everywhere else in this
-	// file: the execution cost is charged first, operands are taken (and are gone) in order from
-	// the top, an abort leaves the rest alone; the one open point (result placed or not when the
-	// final memory charge fails) is carried as two readings below.
-	if !ch.gasExact {
+	if !ch.gasExact || !abortStateDefined(ccl) {
 		m.gasExact = false
 	}
 	res := boolBytes(ccl == cOK && !ch.falseResult())
@@ -1251,6 +1247,21 @@ func (m *rvm) checkPredicate(ownMem *bool) class {
 	}
 	m.limit -= net
 	return cOK
+}
+
+// abortStateDefined: the ways a predicate can stop for which the model says what it holds at
+// that moment. Normal end; VERIFY on a false item (1 charged, the item consumed); FAIL (1
+// charged); run limit (limit 0, the operands the instruction had taken are gone; the one open
+// point - result placed or not when the final memory charge fails - is carried as two readings).
+// For the remaining aborts (underflow, bad value, range, ...) it is not documented whether the
+// operands already taken have been refunded when the instruction gives up (the implementation
+// refunds some at once: PICK, ROLL, DROP pop "non-deferred"), so gas after them is not compared.
+func abortStateDefined(cl class) bool {
+	switch cl {
+	case cOK, cVerify, cFailOp, cRunLimit:
+		return true
+	}
+	return false
 }
 
 // known-answer anchors for the hash primitives the reference relies on
